@@ -60,16 +60,16 @@ type mailedToken struct {
 }
 
 type kbAcct struct {
-	PID      string
-	Email    string
-	PWs      []string // passwords legitimately typed for this account (last = latest)
-	OTPs     []string
-	Rec      []string
-	CnfToks  []mailedToken
-	RecToks  []mailedToken
-	EvToks   []mailedToken
-	Cookies  []string
-	Seeded   bool
+	PID        string
+	Email      string
+	PWs        []string // passwords legitimately typed for this account (last = latest)
+	OTPs       []string
+	Rec        []string
+	CnfToks    []mailedToken
+	RecToks    []mailedToken
+	EvToks     []mailedToken
+	Cookies    []string
+	Seeded     bool
 	Registered bool
 }
 
@@ -131,17 +131,17 @@ func (k *kb) secret(v, kind string) {
 
 // Step is everything a monitor may look at after one op.
 type Step struct {
-	I      int
-	Op     Op
+	I       int
+	Op      Op
 	Skipped bool
-	Why    string
-	Pid    string // resolved PID argument
-	Secret string // resolved secret argument
-	Pre    harness.Snap
-	Post   harness.Snap
-	Req    *harness.Req
-	Resp   *harness.Resp
-	VClock time.Duration // before the op
+	Why     string
+	Pid     string // resolved PID argument
+	Secret  string // resolved secret argument
+	Pre     harness.Snap
+	Post    harness.Snap
+	Req     *harness.Req
+	Resp    *harness.Resp
+	VClock  time.Duration // before the op
 	// JarsPre: every browser's session/cookies before the op
 	SessPre []map[string]string
 	CookPre []map[string]string
@@ -831,7 +831,12 @@ func (m *Machine) Exec(i int, op Op) *Violation {
 			fmt.Printf("TRACE %2d %-12s %+v\n", i, op.K, op)
 		}
 	}
-	m.Trace.add(op.K, op.Src, op.Mut, m.outcomeClass(s))
+	fired := ""
+	if s.Resp != nil && s.Resp.Fired != "" {
+		fired = "fault:" + s.Resp.Fired
+		m.flag("fault-fired")
+	}
+	m.Trace.add(op.K, op.Src, op.Mut, m.outcomeClass(s), fired)
 	if m.Mon == nil {
 		return nil
 	}
@@ -946,7 +951,27 @@ func (m *Machine) observe(s *Step) {
 			case "o2cb":
 				askedRM = strings.Contains(r.SessBefore[authboss.SessionOAuth2Params], `"rm":"true"`)
 			}
-			if !askedRM {
+			// The middleware's rotation comes first (UseRememberToken, then
+			// AddRememberToken); the login issued its own cookie only if a later
+			// AddRememberToken went through.
+			firedIdx := -1
+			if r.Fired != "" {
+				firedIdx = op.FA - 1
+			}
+			idx := 0
+			if len(r.Calls) > 0 && r.Calls[0] == "UseRememberToken" {
+				idx = 1
+				if firedIdx != 0 && len(r.Calls) > 1 && r.Calls[1] == "AddRememberToken" {
+					idx = 2
+				}
+			}
+			loginAdds := 0
+			for ci := idx; ci < len(r.Calls); ci++ {
+				if r.Calls[ci] == "AddRememberToken" && ci != firedIdx {
+					loginAdds++
+				}
+			}
+			if !askedRM || loginAdds == 0 {
 				owner = rot
 			}
 		}
